@@ -303,6 +303,20 @@ func (eng *Engine) verifyFunction(p *Pkg, key string, ct *Contract) (res *FuncRe
 	// vacuity: the precondition must be satisfiable
 	res.ReqSat = append(res.ReqSat, &Obligation{Name: res.Key + "#vacuity:requires", Kind: "vacuity", Goal: "false", PC: append([]string(nil), st.pc...), Vacuity: true})
 
+	if ct.FirstDefer != "" {
+		ok := false
+		if len(decl.Body.List) > 0 {
+			if ds, isDefer := decl.Body.List[0].(*ast.DeferStmt); isDefer && exprText(ds.Call.Fun) == ct.FirstDefer {
+				ok = true
+			}
+		}
+		goal := "true"
+		if !ok {
+			goal = "false"
+		}
+		fc.obls = append(fc.obls, &Obligation{Name: res.Key + "#struct:first-defer", Kind: "struct", Goal: goal, PC: nil,
+			Desc: "the first statement of the body is `defer " + ct.FirstDefer + "(...)` (panic capture installed before anything else)", Pos: eng.fset.Position(decl.Body.Pos())})
+	}
 	outs := fc.execBlock(st, decl.Body.List)
 	for _, o := range outs {
 		switch o.kind {
